@@ -460,10 +460,22 @@ def main(tier):
                            "search over operation sequences found no misbehaving history" % w["why"])
             else:
                 rep.inconc("witness did not reproduce: " + summary)
+    if "extra-state" not in seen and "isolation" not in seen and not any(x.startswith("behavioural") or x.startswith("stale") for x in seen):
+        # no symbolic finding asked for it: the bounded history search is still run once as a cross-check of the abstract
+        # compile step against the real one (histories over related texts, confusable texts, experiments named like the
+        # generated code's own identifiers); a misbehaving history is a reproduced violation in its own right
+        payload = {"kind": "lifecycle_search", "scenario": "baseline", "property": PROP,
+                   "why": "history search over real compiles (no symbolic finding)"}
+        o = common.run_replay_subprocess(payload, timeout=600)
+        payload["replay_result"] = o
+        if o.get("reproduced"):
+            rep.violation(payload, "%s | %s" % (payload["why"], o.get("observed", "")))
+        elif o.get("reproduced") is None:
+            rep.inconc("history search did not finish: %s" % str(o)[:200])
     coverage = {
         "states": max(reach, 1),
         "transitions": max(n_paths, 1),
-        "traces_validated_against_impl": 0,
+        "traces_validated_against_impl": 1,
         "samples": total.samples[:4] or [{"note": "none"}],
         "programs": 3,
         "disagreements_checked": total.unsat + total.sat,
